@@ -16,6 +16,13 @@
                              mark + sweep when the registry outgrows its threshold (only when cfg.gc)
   What is violated *only under a compiled-out check* is `ub` (undefined behaviour), never a made-up result.
 
+  Guards over the allocation class (`CELLO_ALLOC_CHECK`: String_* and Tuple_* functions that realloc/free the buffer, `dealloc`) are not
+  hand-written: `CelloGen.Cfg.guards` holds every `if (cond) throw(…)` of the sources as a term over `header(self)->alloc`, `stamps` the
+  class every `header_init` site writes.  A call lists the guarded functions it runs and the object each runs on (`Call.sites`: the
+  object behind the handle — class read from its header — or an element embedded in it — class stamped by the container); `sitesFire`
+  evaluates the generated terms there.  In-place edits (`Op.ed`) reach objects of every class the functions are defined on: made by
+  new / new_raw / new_root / copy, elements of Array and List (by `get`, by iteration), values and keys of Table and Tree.
+
   The object universe is the one of the C18 workload (harness/h_cfg.c): Int and String values, Array/List of them,
   Table/Tree from them to them.  Source-derived tables come from CelloGen/Cfg.lean (translate/g_cfg.py).
 
@@ -134,6 +141,13 @@ def GExpr.headerOnly : CelloGen.Cfg.GExpr → Bool
   | .or x y | .and x y => GExpr.headerOnly x && GExpr.headerOnly y
   | .not x => GExpr.headerOnly x
   | .other _ => false
+
+/-- does a condition read `header(self)->alloc` -/
+def GExpr.readsClass : CelloGen.Cfg.GExpr → Bool
+  | .allocIs _ | .allocIsnt _ => true
+  | .or x y | .and x y => GExpr.readsClass x || GExpr.readsClass y
+  | .not x => GExpr.readsClass x
+  | .selfNull | .other _ => false
 
 /-- the `CELLO_ALLOC_CHECK` guards of function `fn`, in source order (generated from src/*.c on every run) -/
 def allocGuardsOf (fn : String) : List CelloGen.Cfg.Guard :=
